@@ -710,6 +710,13 @@ def cases(rng, tier):
             yield mk(side, zc, "HEAD", h, None, 64, size, CTS[2])
             yield mk(side, zc, "GET", h, None, 64, size, CTS[3])
             yield mk(side, zc, "HEAD", h, None, 64, size, CTS[3])
+    # very many specs in one header (the count itself must not matter)
+    for k in (32, 33, 64, 65, 128):
+        specs_k = ",".join("%d-%d" % (3 * i, 3 * i) for i in range(k))
+        for side, zc in SIDES:
+            yield mk(side, zc, "GET", "bytes=" + specs_k, None, 64, 3 * k + 5, CTS[0])
+            yield mk(side, zc, "HEAD", "bytes=" + specs_k, None, 64, 3 * k + 5, CTS[0])
+            yield mk(side, zc, "GET", "bytes=" + ",".join("0-%d" % i for i in range(k)), None, 64, 3 * k + 5, CTS[0])
     # 4. C03's exhaustive small range sets, through the whole response
     nums = ["", "0", "1", "2", "4", "5", "9", "10"]
     specs = ["%s-%s" % (a, b) for a in nums for b in nums]
